@@ -10,19 +10,21 @@ ASSUME = [
 def run(tier: str, seed: int):
     if tier == 'quick':
         cfgs = (list(F.fam_limits(1, 4, batch=2, faults=False)) + list(F.fam_limits(1, 3, batch=3, faults=True, stutter=True))
-                + list(F.fam_shapes(1, 4, batch=2)) + list(F.fam_limits_special(3)) + list(F.fam_limits_warm(3)))
-        serial = list(F.fam_limits(1, 3, batch=1)) + list(F.fam_limits_special(2))
+                + list(F.fam_shapes(1, 4, batch=2)) + list(F.fam_limits_special(3)) + list(F.fam_limits_warm(3)) + list(F.fam_inherit(3)))
+        serial = list(F.fam_limits(1, 3, batch=1)) + list(F.fam_limits_special(2)) + list(F.fam_inherit(2))
         rule = 'all DAG shapes n<=4 x type assignment {None,1,2}; n<=3 with faults/deaths and empty polls; pre-cached subsets; every completion order; oracle at every rest point'
         e3c = (list(F.fam_e3(F.fam_limits(1, 3, tnames=('TA', 'TB'), faults=True), workers=(1, 2, None)))
                + list(F.fam_e3(F.fam_limits_special(3, tnames=('TK', 'TC1', 'TC2')), workers=(3,), cpu_count=3, backends=('fork',), liveness=False))
+               # a derived task type declared without a limit (its base type has one)
+               + list(F.fam_e3([c for c in F.fam_inherit(3) if len(c.requested) == c.spec.n and not c.precached and c.requested[0][0] == 0], workers=(3,), cpu_count=3, backends=('fork',), liveness=False))
                # partially warm caches on the process runners (cached tasks next to runnable uncached ones)
                + list(F.fam_e3(F.fam_shapes(2, 3), workers=(2,), liveness=False))
                # a worker process that never exits after sending its result (a left-over non-daemon thread)
                + list(F.fam_e3(F.fam_limits(2, 3, tnames=('TA',)), workers=(1, 2), backends=('fork',), liveness=False, linger=True)))
     else:
         cfgs = (list(F.fam_limits(1, 4, batch=3, faults=True, tnames=('TA', 'TB', 'TC', 'TD'), stutter=True))
-                + list(F.fam_limits(5, 5, batch=2, tnames=('TB', 'TC'))) + list(F.fam_shapes(1, 5, batch=2)) + list(F.fam_limits_special(3, batch=3)) + list(F.fam_limits_warm(3, batch=3)))
+                + list(F.fam_limits(5, 5, batch=2, tnames=('TB', 'TC'))) + list(F.fam_shapes(1, 5, batch=2)) + list(F.fam_limits_special(3, batch=3)) + list(F.fam_limits_warm(3, batch=3)) + list(F.fam_inherit(3, batch=3, faults=True)))
         serial = list(F.fam_limits(1, 4, batch=1)) + list(F.fam_limits_special(3))
         rule = 'n<=4 x {None,1,2,3} x faults x stutter, batch<=3; n=5'
-        e3c = list(F.fam_e3(F.fam_limits(1, 3, tnames=('TA', 'TB', 'TC'), faults=True), workers=(1, 2, 3, None), cpu_count=3)) + list(F.fam_e3(F.fam_limits(4, 4, tnames=('TA', 'TB')), workers=(2, 3), cpu_count=3, liveness=False)) + list(F.fam_e3(F.fam_limits(2, 3, tnames=('TA', 'TB')), workers=(1, 2), linger=True)) + list(F.fam_e3(F.fam_limits_special(3), workers=(2, 3), cpu_count=3))
+        e3c = list(F.fam_e3(F.fam_limits(1, 3, tnames=('TA', 'TB', 'TC'), faults=True), workers=(1, 2, 3, None), cpu_count=3)) + list(F.fam_e3(F.fam_limits(4, 4, tnames=('TA', 'TB')), workers=(2, 3), cpu_count=3, liveness=False)) + list(F.fam_e3(F.fam_limits(2, 3, tnames=('TA', 'TB')), workers=(1, 2), linger=True)) + list(F.fam_e3(F.fam_limits_special(3), workers=(2, 3), cpu_count=3)) + list(F.fam_e3(F.fam_inherit(3), workers=(2, 3), cpu_count=3, liveness=False))
     return run_e2_property('C05', tier, seed, cfgs, serial_configs=serial, e3_configs=e3c, barrier_cases=__import__('verif_lt.e4b', fromlist=['cases']).cases(tier), real_cases=list(F.fam_real(F.real_bases('limits'), workers=(1, 2))), rule=rule, assumptions=ASSUME)
